@@ -53,14 +53,16 @@ class Ref:
             self.mets[m["id"]] = {"name": m.get("name", ""), "formula": m.get("formula"), "charge": m.get("charge"),
                                   "compartment": m.get("compartment"), "notes": copy.deepcopy(m.get("notes", {})),
                                   "annotation": copy.deepcopy(m.get("annotation", {})), "uid": _uid()}
-        self.graveyard: List[Dict[str, Any]] = []  # reactions taken out by remove_reactions, in removal order
+        self.graveyard: List[int] = []  # uids of reaction objects taken out by remove_reactions, in removal order
+        self.dead_rxns: Dict[int, Dict[str, Any]] = {}  # last state of every reaction object that left the model
         self.dead_mets: Dict[int, Tuple[str, Dict[str, Any]]] = {}  # metabolite objects that left the model
         self.genes: Dict[str, Dict[str, Any]] = {}
         self.rxns: Dict[str, Dict[str, Any]] = {}
         for r in spec["rxns"]:
             self.rxns[r["id"]] = {"mets": {m: c for m, c in r["mets"].items() if c != 0}, "lb": r["lb"], "ub": r["ub"],
                                   "rule": r.get("gpr"), "name": r.get("name", ""), "subsystem": r.get("subsystem", ""),
-                                  "notes": copy.deepcopy(r.get("notes", {})), "annotation": copy.deepcopy(r.get("annotation", {}))}
+                                  "notes": copy.deepcopy(r.get("notes", {})), "annotation": copy.deepcopy(r.get("annotation", {})),
+                                  "uid": _uid()}
             self._ensure_genes(r.get("gpr"))
         for g in spec.get("genes", []):
             if g["id"] in self.genes:
@@ -91,6 +93,11 @@ class Ref:
                 g["members"].add((kind, new))
 
     def _remove_rxn(self, rid, orphans=False):
+        rec = self.rxns[rid]
+        # the removed object keeps its content and its metabolite objects (tracked by uid: they may be renamed or
+        # leave the model later)
+        self.dead_rxns[rec["uid"]] = {"id": rid, "rec": {k: copy.deepcopy(v) for k, v in rec.items() if k != "mets"},
+                                      "mets": [(self.mets[m]["uid"], c) for m, c in rec["mets"].items()]}
         r = self.rxns.pop(rid)
         self.objective.pop(rid, None)
         self._drop_member("r", rid)
@@ -167,7 +174,8 @@ class Ref:
                 self.mets[mid] = new_met(mid)
             mets[mid] = c
         lb, ub = d["b"]
-        self.rxns[rid] = {"mets": mets, "lb": lb, "ub": ub, "rule": d["rule"], "name": "", "subsystem": "", "notes": {}, "annotation": {}}
+        self.rxns[rid] = {"mets": mets, "lb": lb, "ub": ub, "rule": d["rule"], "name": "", "subsystem": "", "notes": {}, "annotation": {},
+                          "uid": _uid()}
         self._ensure_genes(d["rule"])
 
     def op_add_reactions(self, op, o, out):
@@ -182,16 +190,12 @@ class Ref:
             picked = picked[:1]
         for rid in picked:
             if rid in self.rxns:  # a reaction listed twice is "not in the model" the second time (warning only)
-                rec = self.rxns[rid]
-                # the removed object keeps its content and its metabolite objects (tracked by uid: they may be renamed
-                # or leave the model later)
-                grave = {"id": rid, "rec": {k: copy.deepcopy(v) for k, v in rec.items() if k != "mets"},
-                         "mets": [(self.mets[m]["uid"], c) for m, c in rec["mets"].items()]}
+                uid = self.rxns[rid]["uid"]
                 self._remove_rxn(rid, op["orphans"])
-                self.graveyard.append(grave)
+                self.graveyard.append(uid)
 
     def op_readd(self, op, o, out):
-        g = self.graveyard[op["k"] % len(self.graveyard)]
+        g = self.dead_rxns[self.graveyard[op["k"] % len(self.graveyard)]]
         rid = g["id"]
         if rid in self.rxns:
             return  # "Reactions with identifiers identical to a reaction already in the model are ignored."
@@ -208,7 +212,6 @@ class Ref:
                 mets[mid] = c  # otherwise re-pointed to the model's metabolite of that id
         self.rxns[rid] = {**copy.deepcopy(g["rec"]), "mets": mets}
         self._ensure_genes(g["rec"]["rule"])
-        g["back"] = True
 
     def op_add_metabolites(self, op, o, out):
         ids = [MID[i] for i in op["mets"]]
@@ -257,7 +260,7 @@ class Ref:
         if lb > ub:
             raise Expect("ValueError")
         self.rxns[rid] = {"mets": {mid: -1}, "lb": lb, "ub": ub, "rule": None, "name": f"{self.mets[mid]['name']} {typ}",
-                          "subsystem": "", "notes": {}, "annotation": {"sbo": sbo}}
+                          "subsystem": "", "notes": {}, "annotation": {"sbo": sbo}, "uid": _uid()}
 
     def op_rxn_add_mets(self, op, o, out):
         rid = self.pick(o["r"], op["rxn"])
